@@ -358,3 +358,11 @@ func RunReplay(t *testing.T, hs map[string]func()) {
 	}()
 	fmt.Println("VERIF-REPLAY: " + verdict)
 }
+
+// Ghost observers of the opaque distribution model (solver only).
+func DistResets(d any) int      { return 0 }
+func DistLastSeed(d any) []byte { return nil }
+
+// OnSample lets a harness choose the values the (opaque) length/IAT distributions return
+// under the solver. Natively the real distributions are used.
+func OnSample(f func(min, max int) int) {}
